@@ -202,7 +202,18 @@ def run_case(ctx, case):
     if any(isinstance(c, tuple) and c[0] == "per" and len(c[1]) == 1
            for c in list(num.values()) + list(den.values())):
       ctx.count("constant-stream-coefficient")
+    before = (sorted(dict(filt.numpoly.terms())),
+              sorted(dict(filt.denpoly.terms())))
     res = filt(x, memory=list(mem) if mem is not None else None, zero=zero)
+    after = (sorted(dict(filt.numpoly.terms())),
+             sorted(dict(filt.denpoly.terms())))
+    ctx.count("filter-object-intact-after-call-checked")
+    if before != after:
+      # calling a filter must not take it apart (it is the same system
+      # afterwards: a stream in a0 is no different from one in a1)
+      ctx.violation("call-modifies-the-filter-object", case,
+                    powers_before=before, powers_after=after)
+      return True
     if any(p.pulls for p in src.probes):
       ctx.violation("coefficient-stream/read-at-call", case)
       return True
@@ -381,6 +392,7 @@ def run_case(ctx, case):
 
 def finish(ctx):
   ctx.need("single-use-hub-coefficients", 200)
+  ctx.need("filter-object-intact-after-call-checked", 1000)
   for k in ["outputs-compared", "pull-counts-checked"]:
     ctx.need(k, 2000)
   for k in ["variable-a0", "constant-stream-coefficient", "ended-with-input",
